@@ -10,6 +10,7 @@ import (
 
 	"mellium.im/xmpp/jid"
 	"mellium.im/xmpp/muc"
+	"mellium.im/xmpp/stanza"
 
 	"mellium.im/xmpp/verifharness/core"
 	"mellium.im/xmpp/verifharness/stall"
@@ -39,9 +40,27 @@ type driver struct {
 	nctx    int
 	invites []*inviteSpec
 	aborted bool
+	dead    bool // the session ended under the script: nothing more can be judged
 }
 
 func (d *driver) addr(room int) string { return d.mc.Rooms[room-1] }
+
+// sessionEnded is called when Serve has returned in the middle of a case.
+func (d *driver) sessionEnded() {
+	d.dead = true
+	err := d.w.srvErr
+	if err != nil && strings.Contains(err.Error(), "i/o timeout") {
+		// Not this property's business: the session arms a write deadline in
+		// the past when a sender's context ends (setWriteDeadline) and a write
+		// of the serve loop that happens to be in progress fails with it.  The
+		// case cannot be judged; it is counted and reported to the owners of the
+		// transmit properties (C05/C10).
+		d.c.Count("session_lost_to_cancelled_senders_write_deadline", 1)
+		d.c.Notef("Serve returned %v", err)
+		return
+	}
+	d.c.Violate("muc:session-ended", "the session ended in the middle of the script: Serve returned %v", err)
+}
 
 func (d *driver) start(st step) {
 	addr := d.addr(st.Room)
@@ -61,9 +80,9 @@ func (d *driver) start(st step) {
 	d.calls[st.Label] = cl
 	d.order = append(d.order, cl)
 	d.pending[addr]++
-	// calls on one address are made one after the other: the next request the
-	// room sees for it is this call's
-	cl.reqIndex = d.w.countRequests(addr) + 1
+	// every request carries a unique id, so the room (and the oracle) can tell
+	// whose it is however late it arrives
+	cl.reqID = fmt.Sprintf("call%d", cl.n)
 	d.w.log.add(event{Ev: "call", Op: st.Op, Call: cl.n, Addr: addr, Ctx: cl.ctxN})
 	gidCh := make(chan string, 1)
 	go func() {
@@ -72,11 +91,11 @@ func (d *driver) start(st step) {
 		d.c.Guard("muc."+st.Op, func() {
 			switch st.Op {
 			case "join":
-				cl.ch, cl.err = d.w.client.Join(ctx, jid.MustParse(addr), d.w.p.S)
+				cl.ch, cl.err = d.w.client.JoinPresence(ctx, stanza.Presence{To: jid.MustParse(addr), ID: cl.reqID}, d.w.p.S)
 			case "rejoin":
-				cl.err = cl.ch.Join(ctx)
+				cl.err = cl.ch.JoinPresence(ctx, stanza.Presence{ID: cl.reqID})
 			case "leave":
-				cl.err = cl.ch.Leave(ctx, "")
+				cl.err = cl.ch.LeavePresence(ctx, "", stanza.Presence{ID: cl.reqID})
 			}
 		})
 		class, cond := classifyErr(cl.err)
@@ -184,7 +203,7 @@ func (d *driver) barrier() bool {
 	if !d.w.barrier(d.nbar) {
 		select {
 		case <-d.w.served:
-			d.c.Violate("muc:session-ended", "the session stopped answering: Serve returned %v", d.w.srvErr)
+			d.sessionEnded()
 		default:
 			d.c.Inconclusive("barrier %d was not answered", d.nbar)
 		}
@@ -220,13 +239,15 @@ func (d *driver) barrier() bool {
 	return true
 }
 
+// latestJoinRequest: the id of the latest join request the room has seen for
+// the address (a room echoes it in the self-presence).
 func (d *driver) latestJoinRequest(addr string) string {
-	d.w.mu.Lock()
-	defer d.w.mu.Unlock()
-	rs := d.w.reqs[addr]
-	for i := len(rs) - 1; i >= 0; i-- {
-		if rs[i].Typ == "" {
-			return rs[i].ID
+	for i := len(d.order) - 1; i >= 0; i-- {
+		cl := d.order[i]
+		if cl.addr == addr && cl.op != "leave" {
+			if _, ok := d.w.requestSeen(cl.reqID, 0); ok {
+				return cl.reqID
+			}
 		}
 	}
 	return ""
@@ -246,10 +267,10 @@ func (d *driver) exec(st step) {
 		}
 	case "seen":
 		cl := d.calls[st.Label]
-		if cl == nil || cl.reqIndex == 0 {
+		if cl == nil || cl.reqID == "" {
 			break
 		}
-		if _, ok := w.nthRequest(cl.addr, cl.reqIndex, 300*time.Millisecond); ok {
+		if _, ok := w.requestSeen(cl.reqID, 300*time.Millisecond); ok {
 			break
 		}
 		// A Channel.Join can block before it sends anything (an abandoned earlier
@@ -267,15 +288,15 @@ func (d *driver) exec(st step) {
 		default:
 		}
 		if returned {
-			if _, ok := w.nthRequest(cl.addr, cl.reqIndex, 0); !ok {
+			if _, ok := w.requestSeen(cl.reqID, 0); !ok {
 				d.c.Count("requests_never_sent", 1)
 				break
 			}
 		}
-		if _, ok := w.nthRequest(cl.addr, cl.reqIndex, hardLimit); !ok {
+		if _, ok := w.requestSeen(cl.reqID, hardLimit); !ok {
 			select {
 			case <-w.served:
-				d.c.Violate("muc:session-ended", "the session ended: Serve returned %v", w.srvErr)
+				d.sessionEnded()
 			default:
 				d.c.Inconclusive("the room never saw the request of %s(%s)", cl.op, cl.addr)
 			}
@@ -286,8 +307,8 @@ func (d *driver) exec(st step) {
 	case "self-unsolicited", "self-again":
 		w.presence(d.addr(st.Room), "", "", true, 110)
 	case "error":
-		if cl := d.calls[st.Label]; cl != nil && cl.reqIndex != 0 {
-			if rq, ok := w.nthRequest(cl.addr, cl.reqIndex, 0); ok {
+		if cl := d.calls[st.Label]; cl != nil && cl.reqID != "" {
+			if rq, ok := w.requestSeen(cl.reqID, 0); ok {
 				w.errorPresence(cl.addr, rq.ID, errTypeOf(st.Cond), st.Cond)
 			}
 		}
@@ -351,5 +372,14 @@ func execCase(c *core.Case, mc *muCase) {
 	}
 	log := w.log.snapshot()
 	c.Extra(log)
+	if d.dead {
+		return
+	}
+	select {
+	case <-w.served:
+		d.sessionEnded()
+		return
+	default:
+	}
 	judge(c, mc, d, log)
 }
